@@ -382,6 +382,75 @@ fn suffix_check(v: &(Stream, u16, u32), rep: &mut Rep) -> Result<(), String> {
     Ok(())
 }
 
+/// position independence on damaged streams: a suffix with embedded markers of its own framing, a message whose length
+/// field points behind the end of the input, or a cut off end parses to the same messages on its own and behind 1..3
+/// whole messages (the full parse meets the damage with the framing already detected, the fresh parse without)
+fn dirty_suffix_check(v: &(Stream, Stream, Vec<(u16, u8)>, u32), rep: &mut Rep) -> Result<(), String> {
+    let (suffix, prefix, damage, start) = v;
+    let enc = match suffix.encode_clean() {
+        Some(e) => e,
+        None => return Ok(()),
+    };
+    let mut pre = prefix.clone();
+    pre.serial = suffix.serial;
+    pre.elems.retain(|e| matches!(e, Elem::M(_)));
+    pre.elems.truncate(3);
+    let penc = match pre.encode_clean() {
+        Some(e) => e,
+        None => return Ok(()),
+    };
+    if penc.msgs.is_empty() {
+        rep.label("no_prefix");
+        return Ok(());
+    }
+    let mut s = enc.bytes.clone();
+    let marker = if suffix.serial { SERIAL_MARKER } else { STORAGE_MARKER };
+    let len_at = if suffix.serial { 4 + 2 } else { 16 + 2 };
+    for (sel, kind) in damage {
+        match kind % 3 {
+            0 if s.len() >= 4 => {
+                let p = (*sel as usize * (s.len() - 3)) >> 16;
+                s[p..p + 4].copy_from_slice(&marker);
+                rep.label("embedded_marker");
+            }
+            1 if !enc.msgs.is_empty() => {
+                let j = (*sel as usize * enc.msgs.len()) >> 16;
+                let off = enc.msgs[j].0;
+                if off + len_at + 2 <= s.len() {
+                    // announced length: more than what is left of the input
+                    let rest = s.len() - off;
+                    let l = std::cmp::min(0xffff, rest + 1 + (*sel as usize % 7) * 300) as u16;
+                    s[off + len_at..off + len_at + 2].copy_from_slice(&l.to_be_bytes());
+                    rep.label_if(l as usize > rest, "length_beyond_the_end");
+                }
+            }
+            2 => {
+                let cut = (*sel as usize % 40).min(s.len());
+                s.truncate(s.len() - cut);
+                rep.label_if(cut > 0, "cut_off_end");
+            }
+            _ => {}
+        }
+    }
+    let mut whole = penc.bytes.clone();
+    whole.extend_from_slice(&s);
+    if !suffix.serial && (f04_class(&s) || f04_class(&whole)) {
+        rep.known = Some("F04");
+        return Ok(());
+    }
+    let k = penc.msgs.len();
+    let alone = parse_all(start.wrapping_add(k as u32), std::io::Cursor::new(&s[..]));
+    let behind = parse_all(*start, std::io::Cursor::new(&whole[..]));
+    rep.nontrivial = !damage.is_empty() && !alone.0.is_empty();
+    rep.label_if(alone.0.len() < enc.msgs.len(), "damage_costs_messages");
+    ensure!(behind.0.len() >= k, "the {} whole messages in front are not all recognised ({})", k, behind.0.len());
+    ensure_eq!(behind.0.len() - k, alone.0.len(), "messages recognised in the suffix behind {} whole messages vs on its own ({} bytes, {})", k, s.len(), if suffix.serial { "serial" } else { "storage" });
+    for (a, b) in alone.0.iter().zip(behind.0[k..].iter()) {
+        ensure!(a == b, "suffix parse differs at index {}", a.index);
+    }
+    Ok(())
+}
+
 /// streams with several near-maximum messages (so that the stream exceeds the reader's buffer)
 fn huge_stream() -> impl Strategy<Value = Stream> {
     (stream(8, true, 5000), prop::collection::vec((any::<u16>(), any::<u16>()), 0..5)).prop_map(|(mut s, bumps)| {
@@ -448,6 +517,7 @@ pub fn def(tier: Tier) -> PropertyDef {
                 .shrink_iters(300)
                 .boxed(),
             sub("suffix_position", tier.pick(60_000, 1_000_000), (stream(12, false, 300), any::<u16>(), start), suffix_check).rates(&[("proper_suffix", 0.3), ("suffix_starts_with_garbage", 0.1)]).boxed(),
+            sub("suffix_position_damaged", tier.pick(150_000, 2_000_000), (stream(8, false, 300), stream(4, false, 0), prop::collection::vec((any::<u16>(), 0u8..3), 0..4), prop_oneof![Just(0u32), any::<u32>()]), dirty_suffix_check).rates(&[("embedded_marker", 0.2), ("length_beyond_the_end", 0.15), ("cut_off_end", 0.2), ("damage_costs_messages", 0.2)]).boxed(),
             crate::fuzzing::fuzz_sub("framing", "fuzz_framing", tier.pick(10_000, 100_000)),
             // only used to replay the pinned reproducer of the open finding F04 (no exclusion)
             sub("f04_strict", std::env::var("VERIF_DEV_F04").ok().and_then(|s| s.parse().ok()).unwrap_or(0), f04_strict, |v, r| iter_diff(v, r, true)).boxed(),
